@@ -83,6 +83,104 @@ CHECKS = {
              "only. Known finding: metrics() skips resampling when np.allclose(est_time, ref_time), whose relative "
              "tolerance reaches a whole frame for late time stamps.",
         design="§5 C18"),
+    "C03": dict(
+        text="Lean 4 proofs over a mini-language for evaluate() bodies whose programs and the signature table are "
+             "REGENERATED from /repo's AST on every run: for every user keyword dictionary, each task's evaluate() raises "
+             "nothing, produces the documented key list in order, and routes to every callee exactly the documented "
+             "per-entry parameters (forced values override user values; unrelated keywords are ignored; "
+             "filter_kwargs specification); real evaluate(x, **kw) is compared with the real metric functions called "
+             "directly on the identically pre-processed input for keyword subsets incl. empty annotations.",
+        note="The translator (harness/translate/signatures.py, evalprogs.py) is trusted and fails closed on statement "
+             "forms outside its subset. Value-level scalar arity of every metric on every input is oracle-checked, "
+             "only the syntactic return shape is proved. Known findings: pattern.evaluate forces 'thresh' (parameter "
+             "is 'thres'); first_n_* / rand_index / ari return 3-tuples on empty input.",
+        design="§5 C03"),
+    "C04": dict(
+        text="The Lean model is the executable definition of every event/frame/note metric (beat x6 incl. variations, "
+             "onset, boundary detection/deviation, melody, multipitch, transcription + velocity, tempo, alignment, "
+             "pattern), with 'algorithm = definition' theorems where the code is cleverer than the definition "
+             "(_fast_hit_windows = tolerance predicate, matching number, metrical variations, chroma folding = distance "
+             "to 1200Z, tempo hit iff, medians, PCS overlap, pattern score matrices, least-squares line); the property "
+             "is decided by value correspondence on exact-lattice / margin streams, a disagreement being itself the "
+             "failing input; documented defaults are pinned.",
+        note="exp/log/erf/lgamma parts agree to 1e-9 only (Lean Float vs NumPy/SciPy); log2 on pitches is exercised "
+             "through the harness conversion; key table is part of C09/C11's key model.",
+        design="§5 C04"),
+    "C12": dict(
+        text="Lean 4 proofs: weighted_accuracy is invariant under positive rescaling of the weights, is the weighted "
+             "mean over comparable entries, is 1 / 0 when all comparable comparisons are 1 / 0; splitting an interval "
+             "at an interior point changes no label at any instant, no frame label, no merged chord segmentation and "
+             "no chord score for any comparison function on abstract tokens (aligned contiguous annotations); "
+             "refinement oracle on chord.evaluate, segment metrics and hierarchy.lmeasure (exact on the lattice).",
+        note="End-to-end chord.evaluate invariance when the cut estimate interval is cropped by adjust_intervals, and "
+             "the frame-based segment / L-measure scores, rest on samples_split_invariant plus the refinement oracle.",
+        design="§5 C12"),
+    "C13": dict(
+        text="Lean 4 proofs for time-ordered input of any size and arbitrary rational or absent crop points: "
+             "adjust_intervals output spans [t_min, t_max], is ordered, stays inside the range, carries the documented "
+             "label at every instant (partial, see findings), interpolate_intervals / intervals_to_samples give "
+             "each time the label of the last closed interval containing it or the fill value, "
+             "merge_labeled_intervals is the common refinement with conserved duration, boundaries<->intervals are "
+             "mutually inverse on 5-decimal-exact contiguous segmentations; exhaustive small-scope correspondence in "
+             "the thorough tier.",
+        note="Known findings (full statements refuted in Lean, partial theorems proved): zero-length intervals when an "
+             "interval ends exactly at t_min / starts at t_max / all lie before t_min; an internal gap that "
+             "straddles a crop point comes back labelled.",
+        design="§5 C13"),
+    "C14": dict(
+        text="Lean 4 proofs for each of the 26 validators (array descriptors): only ok or ValueError can come out "
+             "(InvalidChord for labels), V x = ok iff the documented convention holds (written as an independent "
+             "Prop), every documented fault class is rejected; exception-class correspondence of the real validators "
+             "on valid and single-fault streams; oracle over every task entry point: valid inputs incl. degenerate and "
+             "boundary-coincident shapes never raise, one single-fault corruption per documented fault class raises "
+             "ValueError / InvalidChordException and nothing else.",
+        note="Totality of the metric bodies on valid input is established by the oracle, not by a theorem (except where a "
+             "task slice proves it). NaN and non-array containers are out of scope. Known findings: p_score int(NaN), "
+             "zero-length crop in segment/chord.evaluate, negative multipitch frequency accepted, beat.evaluate "
+             "flattens 2-D input, one-level hierarchies never validated, chord TypeError on a zero-span reference.",
+        design="§5 C14"),
+    "C16": dict(
+        text="Lean 4 proofs for label sequences of any length: the code's outer-equality pair counting equals the "
+             "contingency-table binomial sums, pairwise P/R/F, Rand and ARI equal their textbook formulas (with the "
+             "code's special cases), ARI = 1 when the partitions coincide and never exceeds 1, vmeasure = "
+             "nce(marginal=True) definitionally, V is the harmonic mean, MI is symmetric and equals the textbook sum "
+             "(over the reals), labels are compared case-insensitively; exact correspondence for the rational "
+             "indices, 1e-9 for the transcendental ones; thorough tier enumerates all pairs of restricted-growth "
+             "label sequences up to 8 frames.",
+        note="AMI's expected-MI loop is transliterated and compared, not derived; NMI/NCE textbook forms over the reals "
+             "are not proved.",
+        design="§5 C16"),
+    "C17": dict(
+        text="Lean 4 proofs for all inputs: _count_inversions = #{(x,y) | x >= y}, _compare_frame_rankings = "
+             "(#triples - #correct, #triples) for both transitive settings, the window slice minus the query is the "
+             "window, _gauc equals the brute-force triplet definition and lies in [0,1], lca/meet specs, "
+             "tmeasure/lmeasure equal the definition with roles exchanged for precision, parameter rejections; "
+             "exact rational correspondence; brute-force triple enumeration oracle.",
+        note="Known finding: tmeasure / lmeasure raise IndexError when a query window holds exactly one frame "
+             "(window == frame_size, or a one-frame track).",
+        design="§5 C17"),
+    "C19": dict(
+        text="PARTIAL. Lean 4 proofs about the logic around an ABSTRACT projection operator: the four components sum to "
+             "the estimate for any projection, source criteria are scale-invariant under homogeneity, the returned "
+             "permutation is a permutation maximising mean SIR (first maximiser in itertools order) and follows a "
+             "reordering of the estimates for a unique maximiser, framewise windows / fall-back / per-window "
+             "consistency / NaN masks / arities; the model is run against the real code's own intermediates; the "
+             "projection numerics are covered by a numerical oracle only.",
+        note="The least-squares projection (_project, _project_images: FFT, Toeplitz solve) is modelled-not-verified; its "
+             "homogeneity is a hypothesis of the scale theorems. Known findings: images-framewise isr uninitialised on "
+             "silent windows, 4 arrays on empty input, image SDR/ISR not scale-invariant, AttributeError on a singular "
+             "system under numpy 2.",
+        design="§5 C19"),
+    "C20": dict(
+        text="Lean 4 proofs over List Char with abstract token converters, for files of any length: split/join round "
+             "trip (last field may contain the delimiter), load_delimited returns the written rows in file order "
+             "skipping column-0 comment lines, wrong column count / unparsable number raise ValueError naming the "
+             "1-based row, blank lines are malformed rows, key/tempo single-line and weight-range rules, ragged and "
+             "pattern state machines; loaders compared bit-for-bit (struct.pack) from StringIO, path and open file.",
+        note="float(str)/repr(float) and Python's re are trusted; warnings are checked by the oracle only. Known findings: "
+             "load_ragged_time_series(header=True) does not skip the header; load_patterns raises IndexError on a "
+             "one-column data row.",
+        design="§5 C20"),
 }
 
 NOT_YET = "check not built yet (work in progress; see DESIGN.md §9)"
